@@ -16,6 +16,15 @@ ATOMS = ["", ".", "..", "x", "os", "os.path", "json", "json.decoder", "typing", 
          "krrood.adapters.json_serializer.JSONSerializableTypeRegistry", "krrood.adapters.json_serializer.from_json",
          "collections.abc", "a b.c", "os.path.", ".os", "os..path", "1.2", " ", "é.é", "sys.modules", "sys.maxsize",
          "os.environ", "typing.List", "abc.ABC", "enum.Enum", "test.dataset.example_classes.Position"]
+# modules that EXIST but fail while being imported (a missing dependency, a platform-specific module, an error at import time)
+import os as _os, sys as _sys, tempfile as _tempfile
+_TMP = _tempfile.mkdtemp(prefix="c19_")
+_sys.path.insert(0, _TMP)
+for _name, _body in (("c19_needs_missing_dependency", "import c19_this_dependency_does_not_exist\nclass X: pass\n"),
+                     ("c19_raises_import_error", "raise ImportError('cannot set up')\n")):
+    with open(_os.path.join(_TMP, _name + ".py"), "w") as _f:
+        _f.write(_body)
+ATOMS += ["c19_needs_missing_dependency.X", "c19_raises_import_error.X", "multiprocessing.popen_spawn_win32.Popen", "json.__all__", "sys.path"]
 tags = [None, True, False, 0, 5, -1, 1.5, 0.0, float("inf"), [], ["a"], ["a.b"], {}, {"a": 1}, [None]] + ATOMS
 if a.tier == "thorough":
     tags += [x + "." + y for x, y in itertools.product(["", "os", "json", "krrood.adapters", "nonexistent_mod_xyz"], ["", "x", "path", "JSONDecoder", "json_serializer", "T"])]
